@@ -64,7 +64,7 @@ def b_zaid(ch):
 
 
 SUB = [(1, 1), (8, 16), (26, 0), (92, 235), (6, 12), (100, 257)]
-FRACS = ['1.', '0.5', '2.5e-2', '1e-30', '4']
+FRACS = ['1.', '0.5', '2.5e-2', '1e-30', '4', '5.0e-8', '3.0e+7']
 
 
 def b_forms(ch):
@@ -82,7 +82,7 @@ def b_forms(ch):
         if sign.startswith('mixed') and n == 1:
             ch.reject()
         entries.append((z, a, ('-' + f) if neg else f))
-    rho = ch.choose('rho', ['-2.5', '0.05', '-1.0e-3', '6.4-2'])
+    rho = ch.choose('rho', ['-2.5', '0.05', '-1.0e-3', '6.4-2', '2.5e-8', '-3.0e-9', '7.5e+7'])
     suffix = ch.choose('suffix', ['', '.70c', '.80c', '.03c'])
     kwpos = ch.choose('kwpos', ['none', 'after', 'before', 'between'])
     kws = ch.choose('kws', [['nlib=70c'], ['gas=1'], ['nlib=70c', 'gas=1'], ['NLIB=.70c']]) if kwpos != 'none' else []
